@@ -71,10 +71,17 @@ def parse_suite(name):
     return None
 
 
+# Named in the table but marked "# unsupported" in tlslite/constants.py: they are in no MAC list, so no
+# settings ever offer or select them (TLS_DHE_DSS_WITH_AES_{128,256}_CBC_SHA256).  Not "shared" by anybody.
+DECLARED_UNSUPPORTED = (0x0040, 0x006A)
+
+
 def suite_table():
     from tlslite.constants import CipherSuite
     res = {}
     for sid, name in CipherSuite.ietfNames.items():
+        if sid in DECLARED_UNSUPPORTED:
+            continue
         p = parse_suite(name)
         if p is not None:
             p["name"] = name
